@@ -13,11 +13,32 @@ TRUST = ("Trusted: govc itself (go/ssa semantics, memory model, contract parser)
 
 CLAIMED = {
  "C15": dict(
-   text=("Deductive proof, for all inputs, on the real functions (go/ssa of the working tree): Number.Less equals comparison of value*10^(18-fd) "
+   text=("Deductive proof, for all inputs, on the real functions (go/ssa of the working tree): Number.Less/Equal equal comparison of value*10^(18-fd) "
          "in exact integer arithmetic for every pair of (magnitude, sign, fraction-digits<=18), incl. mixed fraction digits and negative zero; "
-         "pow10/Trunc/frac against the 10^k table without wrap-around. Not decided: print/parse round trip and literal denotation "
-         "(string content), FromFloat."),
+         "pow10/Trunc/frac against the 10^k table without wrap-around; Int() exact or error, never wrapped; FromInt/FromUint/addQuantum exact; "
+         "decimalValueFromString/ParseDecimal: every narrowing conversion in range, result at the requested precision with an int64 mantissa. "
+         "Not decided: print/parse round trip and literal denotation (string content), FromFloat."),
    ref="8 (C15)"),
+ "C10": dict(
+   text=("Deductive proof with loop invariants and inductive lemmas over the real functions: coalesce returns the same value set (membership spec over "
+         "the backing array), valid, sorted, non-adjacent parts; Contains accepted => subset; Validate accepted => every part valid and strictly "
+         "disjoint; parseChildRanges on success returns valid, disjoint, coalesced parts at the required scale that are a subset of a non-empty "
+         "parent, min/max resolve to the parent's bounds (closure contract), out-of-order parts are rejected. Assumed: YangRange.Sort (sort.Sort) "
+         "sorts by minimum and preserves the set. Not decided: splitting of the restriction text, equality with the written set as one postcondition "
+         "(proved per stage), the eight built-in range constants (closed terms), the call site in Type.resolve."),
+   ref="8 (C10)"),
+ "C14": dict(
+   text=("Deductive proof of the EnumType representation invariant (both maps are mutually inverse views, values within [min,max], last = highest "
+         "value assigned) across NewEnumType/NewBitfield/Set/SetNext and the `set` closure of Type.resolve; Set succeeds exactly when the name is new, "
+         "the value in range and (enums) unused; SetNext assigns 0 to a first member and last+1 otherwise, and errors exactly when that would exceed "
+         "the maximum. Not decided: that the member loops of Type.resolve offer every member once in source order (Type.resolve is not yet under contract)."),
+   ref="8 (C14)"),
+ "C20": dict(
+   text=("Deductive proof that actualWrittenSize returns exactly the caller bytes among the first n bytes of bytes.Join(lines, prefix) (recursive spec "
+         "cb taken from the documented Join semantics), never negative, never more than the bytes accepted nor than the caller's bytes; Write returns "
+         "len(buf) on success and 0,nil for an empty argument; NewWriter returns w itself for an empty indent. Not decided: chunk-independence of the "
+         "rendered bytes (needs Join/SplitAfter content reasoning), Write's byte count against the ghost number of bytes the underlying writer took."),
+   ref="8 (C20)"),
 }
 
 NOT_REACHED = {}
